@@ -108,6 +108,12 @@ def check_trim(db, chk, rule: str) -> None:
                     return vals[2] if len(vals) > 2 else 5
                 if t[0] == "call" and str(t[1]).endswith(".get"):
                     return 1001 if "Event" in T.show(t) else 1002
+                if t[0] == "in" and t[1] == T.col(TR, "name"):
+                    from ..specs.symset import class_in_symbol_set, NEAR_MISSES
+                    nv = vals[2] if len(vals) > 2 else 5
+                    r_ = class_in_symbol_set(t[2], {1001: ["Event Sync"], 1002: ["Context Sync"]}.get(nv, NEAR_MISSES))
+                    if r_ is not None:
+                        return r_
                 raise T.Unknown(t)
             return f
         try:
